@@ -171,6 +171,11 @@ theorem afterSign_exp_pos (c : List Nat) (e : Nat) (neg : Bool) (off d1 : Nat) (
     rw [hkk, tailLoop, hP']
     simp only [hmd, Bool.false_eq_true, if_false, hm46, hm, if_true, hpe]
   simp only [htail]
+  have hk8' : ¬ (decVal ks ≥ 100000000 ∧ decVal (d1 :: xs) ≠ 0) := by
+    have hx : decVal ks < 10 ^ ks.length := decVal_lt_pow ks hks
+    have : 10 ^ ks.length ≤ 10 ^ 8 := Nat.pow_le_pow_right (by decide) hk8
+    omega
+  simp only [hk8', if_false]
   -- exponent bookkeeping
   have hkslen : 0 < ks.length := by rw [hkseq]; simp
   have hendle : off + 1 + xs.length + 1 + plus.length + ks.length ≤ e := by
@@ -282,6 +287,11 @@ theorem afterSign_exp_neg (c : List Nat) (e : Nat) (neg : Bool) (off d1 : Nat) (
     rw [hkk, tailLoop, hP']
     simp only [hmd, Bool.false_eq_true, if_false, hm46, hm, if_true, hpe]
   simp only [htail]
+  have hk8' : ¬ (decVal ks ≥ 100000000 ∧ decVal (d1 :: xs) ≠ 0) := by
+    have hx : decVal ks < 10 ^ ks.length := decVal_lt_pow ks hks
+    have : 10 ^ ks.length ≤ 10 ^ 8 := Nat.pow_le_pow_right (by decide) hk8
+    omega
+  simp only [hk8', if_false]
   -- exponent bookkeeping
   have hkslen : 0 < ks.length := by rw [hkseq]; simp
   have hendle : off + 1 + xs.length + 1 + 1 + ks.length ≤ e := by
